@@ -100,6 +100,15 @@ def make_executor(b: Any, sel: Optional[Dict[str, Any]]) -> Any:
 
 def execute(case: Dict[str, Any], M: Optional[Model] = None, built: Any = None, pre: Optional[Dict[str, Any]] = None,
             target_override: Any = None) -> Outcome:
+    from .env import process_env
+
+    # environment axes: debug logging is on while the DAG is built and run; warnings are errors while it runs
+    with process_env(log_debug=bool(case.get("log_debug"))):
+        return _execute(case, M, built, pre, target_override)
+
+
+def _execute(case: Dict[str, Any], M: Optional[Model] = None, built: Any = None, pre: Optional[Dict[str, Any]] = None,
+             target_override: Any = None) -> Outcome:
     """target_override: an executor object created earlier in the history (its selection is case["sel"])."""
     import threading
 
@@ -297,33 +306,48 @@ def execute(case: Dict[str, Any], M: Optional[Model] = None, built: Any = None, 
         ex = sched.Exec(case.get("mode", "free"), choices=case.get("choices", ()), failing=case.get("failing", ()),
                         sleeps=case.get("sleeps"), spawn_fail=case.get("spawn_fail"))
         out.ex = ex
-        out.invoker = threading.get_ident()
-        try:
-            with ex:
-                if case.get("async"):
-                    async def main() -> Any:
-                        if case.get("small_loop_pool"):
-                            # the user's loop has a tiny default executor: tawazi has its own pool, so this must not matter
-                            asyncio.get_running_loop().set_default_executor(sched.CtlPool(max_workers=1))
-                        try:
-                            return await target(*args)
-                        finally:
-                            # the user's loop keeps running after the await (also after a failed one): whatever
-                            # tawazi left scheduled on it gets its turn
-                            for _ in range(4):
-                                await asyncio.sleep(0)
+        def _observed_call() -> None:
+            out.invoker = threading.get_ident()
+            try:
+                with ex:
+                    if case.get("async"):
+                        async def main() -> Any:
+                            if case.get("small_loop_pool"):
+                                # the user's loop has a tiny default executor: tawazi has its own pool, so this must not matter
+                                asyncio.get_running_loop().set_default_executor(sched.CtlPool(max_workers=1))
+                            try:
+                                return await target(*args)
+                            finally:
+                                # the user's loop keeps running after the await (also after a failed one): whatever
+                                # tawazi left scheduled on it gets its turn
+                                for _ in range(4):
+                                    await asyncio.sleep(0)
 
-                    out.value = asyncio.run(main())
-                else:
-                    out.value = target(*args)
-                if cin and isinstance(out.value, tuple):
-                    # put the supplied input values back at their positions: one entry per site, as in the reference
-                    it = iter(out.value)
-                    out.value = tuple(pre[s] if s in cin else next(it) for s in M.sites)  # type: ignore[index]
-        except BaseException as e:  # noqa: BLE001
-            if isinstance(e, KeyboardInterrupt):
-                raise
-            out.exc = e
+                        out.value = asyncio.run(main())
+                    else:
+                        out.value = target(*args)
+                    if cin and isinstance(out.value, tuple):
+                        # put the supplied input values back at their positions: one entry per site, as in the reference
+                        it = iter(out.value)
+                        out.value = tuple(pre[s] if s in cin else next(it) for s in M.sites)  # type: ignore[index]
+            except BaseException as e:  # noqa: BLE001
+                if isinstance(e, KeyboardInterrupt):
+                    raise
+                out.exc = e
+
+        from .env import process_env as _penv
+
+        _warn = _penv(warn_error=bool(case.get("warn_error")))
+        _warn.__enter__()
+        if case.get("from_thread"):
+            # environment: the DAG is called from a thread that is not the process's main thread (the invoking
+            # thread is that thread: main-thread nodes run there, asyncio.run creates its loop there)
+            th_ = threading.Thread(target=_observed_call, name="vlib-caller")
+            th_.start()
+            th_.join()
+        else:
+            _observed_call()
+        _warn.__exit__(None, None, None)
     finally:
         if out.cache_path:
             import os
